@@ -225,7 +225,7 @@ func (f *finder) funcDecl() {
 	if f.tok == token.LPAREN {
 		f.next() // (
 
-		for f.tok != token.RPAREN {
+		for f.tok != token.RPAREN && f.tok != token.EOF {
 			f.process()
 		}
 		f.next() // )
@@ -263,7 +263,7 @@ func (f *finder) fieldList() {
 		named    bool
 	)
 
-	for f.tok != token.RPAREN {
+	for f.tok != token.RPAREN && f.tok != token.EOF {
 		switch f.tok {
 		case token.FUNC:
 			f.function()
